@@ -112,7 +112,8 @@ theorem aggregate_ren (den : Nat) {Ï : Nat â†’ Nat} (hÏ : Function.Injective Ï
 
 theorem eligible_ren (pol : Policy) (now : Nat) (Ï : Nat â†’ Nat) (r : Row) :
     eligible pol now (renRow Ï r) = (eligible pol now r).map (renCand Ï) := by
-  unfold eligible renRow renCand
+  rw [eligible_eq_spec, eligible_eq_spec]
+  unfold eligibleSpec renRow renCand
   simp only
   repeat' split
   all_goals simp_all [Except.map, renKey]
